@@ -1,0 +1,180 @@
+//go:build verif
+// +build verif
+
+// Contracts for deductive verification (comment-only; compiled only with -tags verif).
+// A set is the inner map stored under its key: x is a member of key k iff has(s.M[k], x).
+
+package set
+
+//@ spec func member(s *Set, key string, x string) bool = has(s.M, key) && has(s.M[key], x)
+//@ spec func setOK(s *Set) bool = s != nil && s.M != nil && (forall k string :: has(s.M, k) ==> s.M[k] != nil && allocated(s.M[k])) &&
+//@        (forall k1 string, k2 string :: k1 != k2 && has(s.M, k1) && has(s.M, k2) ==> s.M[k1] != s.M[k2])
+//@ spec func otherKeys(s *Set, key string) bool = forall k string :: k != key ==> has(s.M, k) == old(has(s.M, k)) && s.M[k] == old(s.M[k])
+
+//@ func New
+//@   ensures[C06] fresh(result) && fresh(result.M) && result.M != nil && (forall k string :: !has(result.M, k))
+//@   modifies nothing
+//@   safety[C06,C20] panics
+
+//@ func Set.SHasKey
+//@   requires s != nil
+//@   ensures[C06] result == has(s.M, key)
+//@   modifies nothing
+//@   safety[C06,C20] panics
+//@   pure
+
+//@ func Set.SCard
+//@   requires s != nil
+//@   ensures[C06] has(s.M, key) ==> result == len(s.M[key])
+//@   ensures[C06] !has(s.M, key) ==> result == 0
+//@   modifies nothing
+//@   safety[C06,C20] panics
+//@   pure
+
+//@ func Set.SIsMember
+//@   requires s != nil
+//@   ensures[C06] result == member(s, key, string(item))
+//@   modifies nothing
+//@   safety[C06,C20] panics
+//@   pure
+
+//@ func Set.checkKey1AndKey2
+//@   requires s != nil
+//@   ensures[C06] (err == nil <==> has(s.M, key1) && has(s.M, key2)) && list == nil
+//@   modifies nothing
+//@   safety[C06,C20] panics
+//@   pure
+
+//@ func Set.SAdd
+//@   requires setOK(s)
+//@   ensures[C06] result == nil && has(s.M, key) && s.M[key] != nil && setOK(s)
+//@   ensures[C06] old(has(s.M, key)) ==> s.M[key] == old(s.M[key])
+//@   ensures[C06] !old(has(s.M, key)) ==> fresh(s.M[key])
+//@   ensures[C06] forall j int :: 0 <= j && j < len(items) ==> has(s.M[key], string(items[j]))
+//@   ensures[C06] forall x string :: old(member(s, key, x)) ==> has(s.M[key], x)
+//@   ensures[C06] forall x string :: has(s.M[key], x) && !old(member(s, key, x)) ==> (exists j int :: 0 <= j && j < len(items) && string(items[j]) == x)
+//@   ensures[C06] otherKeys(s, key)
+//@   modifies entries(s.M), entries(s.M[key])
+//@   safety[C06,C20] panics
+//@   loops 1
+//@   loop 1: modifies entries(s.M[key])
+//@   loop 1: invariant -1 <= rangeindex && rangeindex < len(items) && s == old(s) && key == old(key) && items == old(items) && has(s.M, key) && s.M[key] != nil
+//@   loop 1: invariant forall j int :: 0 <= j && j <= rangeindex ==> has(s.M[key], string(items[j]))
+//@   loop 1: invariant forall x string :: old(member(s, key, x)) ==> has(s.M[key], x)
+//@   loop 1: invariant forall x string :: has(s.M[key], x) && !old(member(s, key, x)) ==> (exists j int :: 0 <= j && j <= rangeindex && string(items[j]) == x)
+
+//@ func Set.SRem
+//@   requires s != nil && len(items) > 0
+//@   ensures[C06] !old(has(s.M, key)) ==> result != nil
+//@   ensures[C06] old(has(s.M, key)) && len(items[0]) > 0 ==> result == nil
+//@   ensures[C06] result == nil ==> (forall j int :: 0 <= j && j < len(items) ==> !has(s.M[key], string(items[j])))
+//@   ensures[C06] forall x string :: has(s.M[key], x) ==> old(has(s.M[key], x))
+//@   ensures[C06] result == nil ==> (forall x string :: old(has(s.M[key], x)) && (forall j int :: 0 <= j && j < len(items) ==> string(items[j]) != x) ==> has(s.M[key], x))
+//@   ensures[C06] result != nil ==> (forall x string :: has(s.M[key], x) == old(has(s.M[key], x)))
+//@   ensures[C06] s.M[key] == old(s.M[key]) && has(s.M, key) == old(has(s.M, key))
+//@   modifies entries(s.M[key])
+//@   safety[C06,C20] panics
+//@   loops 1
+//@   loop 1: modifies entries(s.M[key])
+//@   loop 1: invariant -1 <= rangeindex && rangeindex < len(items) && s == old(s) && key == old(key) && items == old(items) && has(s.M, key)
+//@   loop 1: invariant forall j int :: 0 <= j && j <= rangeindex ==> !has(s.M[key], string(items[j]))
+//@   loop 1: invariant forall x string :: has(s.M[key], x) ==> old(has(s.M[key], x))
+//@   loop 1: invariant forall x string :: old(has(s.M[key], x)) && (forall j int :: 0 <= j && j <= rangeindex ==> string(items[j]) != x) ==> has(s.M[key], x)
+
+//@ func Set.SAreMembers
+//@   requires s != nil
+//@   ensures[C06] result0 == (has(s.M, key) && (forall j int :: 0 <= j && j < len(items) ==> has(s.M[key], string(items[j]))))
+//@   ensures[C06] result0 <==> result1 == nil
+//@   modifies nothing
+//@   safety[C06,C20] panics
+//@   loops 1
+//@   loop 1: invariant -1 <= rangeindex && rangeindex < len(items) && s == old(s) && key == old(key) && items == old(items) && has(s.M, key)
+//@   loop 1: invariant forall j int :: 0 <= j && j <= rangeindex ==> has(s.M[key], string(items[j]))
+
+//@ spec func listOnly(list [][]byte, m map[string]struct{}) bool = forall i int :: 0 <= i && i < len(list) ==> has(m, string(list[i]))
+//@ spec func listDistinct(list [][]byte) bool = forall i int, j int :: 0 <= i && i < j && j < len(list) ==> string(list[i]) != string(list[j])
+
+//@ func Set.SMembers
+//@   requires s != nil
+//@   ensures[C06] !has(s.M, key) ==> err != nil
+//@   ensures[C06] has(s.M, key) ==> err == nil && listOnly(list, s.M[key]) && listDistinct(list)
+//@   ensures[C06] has(s.M, key) ==> (forall x string :: has(s.M[key], x) ==> (exists i int :: 0 <= i && i < len(list) && string(list[i]) == x))
+//@   modifies nothing
+//@   safety[C06,C20] panics
+//@   loops 1
+//@   loop 1: modifies nothing
+//@   loop 1: invariant s == old(s) && key == old(key) && has(s.M, key) && err == nil && sinceLoop(list)
+//@   loop 1: invariant forall i int :: 0 <= i && i < len(list) ==> allocated(list[i]) && has(s.M[key], string(list[i])) && visited[string(list[i])]
+//@   loop 1: invariant forall x string :: visited[x] ==> (exists i int :: 0 <= i && i < len(list) && string(list[i]) == x)
+//@   loop 1: invariant listDistinct(list)
+
+//@ func Set.SDiff
+//@   requires s != nil
+//@   ensures[C06] !(has(s.M, key1) && has(s.M, key2)) ==> err != nil
+//@   ensures[C06] has(s.M, key1) && has(s.M, key2) ==> err == nil && listDistinct(list) &&
+//@        (forall i int :: 0 <= i && i < len(list) ==> has(s.M[key1], string(list[i])) && !has(s.M[key2], string(list[i])))
+//@   ensures[C06] has(s.M, key1) && has(s.M, key2) ==> (forall x string :: has(s.M[key1], x) && !has(s.M[key2], x) ==> (exists i int :: 0 <= i && i < len(list) && string(list[i]) == x))
+//@   modifies nothing
+//@   safety[C06,C20] panics
+//@   loops 1
+//@   loop 1: modifies nothing
+//@   loop 1: invariant s == old(s) && key1 == old(key1) && key2 == old(key2) && has(s.M, key1) && has(s.M, key2) && err == nil && sinceLoop(list)
+//@   loop 1: invariant forall i int :: 0 <= i && i < len(list) ==> allocated(list[i]) && has(s.M[key1], string(list[i])) && !has(s.M[key2], string(list[i])) && visited[string(list[i])]
+//@   loop 1: invariant forall x string :: visited[x] && !has(s.M[key2], x) ==> (exists i int :: 0 <= i && i < len(list) && string(list[i]) == x)
+//@   loop 1: invariant listDistinct(list)
+
+//@ func Set.SInter
+//@   requires s != nil
+//@   ensures[C06] !(has(s.M, key1) && has(s.M, key2)) ==> err != nil
+//@   ensures[C06] has(s.M, key1) && has(s.M, key2) ==> err == nil && listDistinct(list) &&
+//@        (forall i int :: 0 <= i && i < len(list) ==> has(s.M[key1], string(list[i])) && has(s.M[key2], string(list[i])))
+//@   ensures[C06] has(s.M, key1) && has(s.M, key2) ==> (forall x string :: has(s.M[key1], x) && has(s.M[key2], x) ==> (exists i int :: 0 <= i && i < len(list) && string(list[i]) == x))
+//@   modifies nothing
+//@   safety[C06,C20] panics
+//@   loops 1
+//@   loop 1: modifies nothing
+//@   loop 1: invariant s == old(s) && key1 == old(key1) && key2 == old(key2) && has(s.M, key1) && has(s.M, key2) && err == nil && sinceLoop(list)
+//@   loop 1: invariant forall i int :: 0 <= i && i < len(list) ==> allocated(list[i]) && has(s.M[key1], string(list[i])) && has(s.M[key2], string(list[i])) && visited[string(list[i])]
+//@   loop 1: invariant forall x string :: visited[x] && has(s.M[key2], x) ==> (exists i int :: 0 <= i && i < len(list) && string(list[i]) == x)
+//@   loop 1: invariant listDistinct(list)
+
+//@ func Set.SPop
+//@   requires s != nil
+//@   ensures[C06] !old(has(s.M, key)) ==> result == nil
+//@   ensures[C06] result != nil ==> (forall x string :: x == string(result) ==> old(has(s.M[key], x)))
+//@   ensures[C06] result != nil ==> !has(s.M[key], string(result))
+//@   ensures[C06] result != nil ==> (forall x string :: x != string(result) ==> has(s.M[key], x) == old(has(s.M[key], x)))
+//@   ensures[C06] result == nil ==> (forall x string :: has(s.M[key], x) == old(has(s.M[key], x)))
+//@   ensures[C06] old(has(s.M, key)) && (exists x string :: old(has(s.M[key], x))) ==> result != nil
+//@   ensures s.M[key] == old(s.M[key]) && has(s.M, key) == old(has(s.M, key))
+//@   modifies entries(s.M[key])
+//@   safety[C06,C20] panics
+
+//@ func Set.SMove
+//@   requires setOK(s)
+//@   ensures[C06] result0 == (old(has(s.M, key1)) && old(has(s.M, key2))) && (result0 <==> result1 == nil)
+//@   ensures[C06] result0 && len(item) > 0 && key1 != key2 ==> has(s.M[key2], string(item)) && !has(s.M[key1], string(item))
+//@   ensures[C06] !result0 ==> (forall k string, x string :: member(s, k, x) == old(member(s, k, x)))
+//@   ensures forall k string :: has(s.M, k) == old(has(s.M, k)) && s.M[k] == old(s.M[k])
+//@   modifies entries(s.M), entries(s.M[key1]), entries(s.M[key2])
+//@   safety[C06,C20] panics
+
+//@ func Set.SUnion
+//@   requires s != nil
+//@   ensures[C06] !(has(s.M, key1) && has(s.M, key2)) ==> err != nil
+//@   ensures[C06] has(s.M, key1) && has(s.M, key2) ==> err == nil && listDistinct(list) &&
+//@        (forall i int :: 0 <= i && i < len(list) ==> has(s.M[key1], string(list[i])) || has(s.M[key2], string(list[i])))
+//@   ensures[C06] has(s.M, key1) && has(s.M, key2) ==> (forall x string :: has(s.M[key1], x) || has(s.M[key2], x) ==> (exists i int :: 0 <= i && i < len(list) && string(list[i]) == x))
+//@   modifies nothing
+//@   safety[C06,C20] panics
+//@   loops 2
+//@   loop 1: modifies nothing
+//@   loop 1: invariant s == old(s) && key1 == old(key1) && key2 == old(key2) && has(s.M, key1) && has(s.M, key2) && err == nil && sinceLoop(list)
+//@   loop 1: invariant forall i int :: 0 <= i && i < len(list) ==> allocated(list[i]) && has(s.M[key1], string(list[i])) && visited[string(list[i])]
+//@   loop 1: invariant forall x string :: visited[x] ==> (exists i int :: 0 <= i && i < len(list) && string(list[i]) == x)
+//@   loop 1: invariant listDistinct(list)
+//@   loop 2: modifies elems(list)
+//@   loop 2: invariant s == old(s) && key1 == old(key1) && key2 == old(key2) && has(s.M, key1) && has(s.M, key2) && err == nil
+//@   loop 2: invariant forall i int :: 0 <= i && i < len(list) ==> allocated(list[i]) && (has(s.M[key1], string(list[i])) || (has(s.M[key2], string(list[i])) && visited@2[string(list[i])]))
+//@   loop 2: invariant forall x string :: has(s.M[key1], x) || (visited@2[x] && has(s.M[key2], x)) ==> (exists i int :: 0 <= i && i < len(list) && string(list[i]) == x)
+//@   loop 2: invariant listDistinct(list)
